@@ -42,6 +42,8 @@ pub struct Scenario {
 pub struct StepResult {
     pub out: Out,
     pub nodes: u64,
+    pub qnodes: u64,
+    pub max_thread_qnodes_after_cancel: u64,
     pub finds: u64,
     pub inserts: u64,
     pub cancel_seen: bool,
@@ -114,6 +116,8 @@ impl Scenario {
             artifact = out.artifact.take();
             let res = StepResult {
                 nodes: srch::NODES.load(SeqCst),
+                qnodes: srch::QNODES.load(SeqCst),
+                max_thread_qnodes_after_cancel: srch::MAX_THREAD_QNODES_AFTER_CANCEL.load(SeqCst),
                 finds: srch::FINDS.load(SeqCst),
                 inserts: srch::INSERTS.load(SeqCst),
                 cancel_seen: srch::CANCEL_SEEN.load(SeqCst),
